@@ -353,10 +353,25 @@ pub struct Exec {
     pub end: RunEnd,
     pub panics: Vec<String>,
     pub ill_formed: Vec<String>,
+    /// the first attempt hit the wall-clock limit of the deadlock detector and the schedule was replayed
+    pub rerun_after_timeout: bool,
 }
 
-/// Runs the program once under the baton scheduler.
+/// Runs the program once under the baton scheduler. A thread that does not come back from a library call within
+/// 1.5 s is a suspected deadlock; wall-clock time is not a verdict on a loaded machine, so the same decisions are
+/// replayed with a 20 s limit and only a deadlock that shows again is reported.
 pub fn execute(prog: &Program, source: &mut Source) -> Exec {
+    let ex = execute_once(prog, source, 1500);
+    if let RunEnd::Deadlock(_) = ex.end {
+        let mut src = Source::Script { script: ex.decisions.clone(), widths: vec![] };
+        let mut ex2 = execute_once(prog, &mut src, 20_000);
+        ex2.rerun_after_timeout = true;
+        return ex2;
+    }
+    ex
+}
+
+fn execute_once(prog: &Program, source: &mut Source, stuck_ms: u64) -> Exec {
     let root = fresh(&prog.pre);
     let baton = Baton::new(prog.threads.len());
     let results: Arc<Mutex<Vec<Vec<CRes>>>> = Arc::new(Mutex::new(prog.threads.iter().map(|t| vec![CRes::Skipped; calls_of(t).len()]).collect()));
@@ -400,7 +415,7 @@ pub fn execute(prog: &Program, source: &mut Source) -> Exec {
             baton.finish(i);
         }));
     }
-    let rr = baton.control(source, Duration::from_millis(1500));
+    let rr = baton.control(source, Duration::from_millis(stuck_ms));
     if rr.end == RunEnd::Completed {
         pool.wait_all(prog.threads.len());
         POOL.with(|p| *p.borrow_mut() = Some(pool));
@@ -415,7 +430,7 @@ pub fn execute(prog: &Program, source: &mut Source) -> Exec {
     };
     let results = results.lock().unwrap().clone();
     let panics = panics.lock().unwrap().clone();
-    Exec { outcome: Outcome { results, fin }, trace: rr.trace, decisions: rr.decisions, widths: rr.widths, end: rr.end, panics, ill_formed: ill }
+    Exec { outcome: Outcome { results, fin }, trace: rr.trace, decisions: rr.decisions, widths: rr.widths, end: rr.end, panics, ill_formed: ill, rerun_after_timeout: false }
 }
 
 fn trace_text(trace: &[(usize, &'static str)]) -> String {
@@ -498,6 +513,9 @@ pub fn run_program(a: &Args, tag: &'static str, idx: u64, schedules: u64, sweep_
         }
         if distinct_traces.insert(h) {
             acc.fingerprints.insert(h ^ idx.wrapping_mul(0x9E3779B97F4A7C15));
+        }
+        if ex.rerun_after_timeout {
+            acc.count("suspected_deadlocks_replayed_with_long_limit", 1);
         }
         if let RunEnd::Deadlock(stuck) = &ex.end {
             report(acc, &ex, "deadlock", format!("threads {:?} never came back from a library call (blocked on a lock) under schedule {}", stuck, trace_text(&ex.trace)), strategy);
